@@ -18,10 +18,64 @@ theorem split_table (p u w : Str) (hp : p ∈ optPrefixes) (hu : u ∈ units) (h
     split (p ++ u ++ w) = (p, u, w.drop 1) :=
   atom_table p u w hp hu hw
 
+/-- scaling between two prefixed versions of the same unit and power is the ratio of the
+prefixes raised to the power -/
+theorem scaling_ratio (p₁ p₂ u w : Str) (h₁ : p₁ ∈ optPrefixes) (h₂ : p₂ ∈ optPrefixes)
+    (hu : u ∈ units) (hw : w ∈ powerTexts) :
+    scalable (p₁ ++ u ++ w) (p₂ ++ u ++ w) = true ∧
+    scaling (p₁ ++ u ++ w) (p₂ ++ u ++ w) = .ok (tenPow (expOf p₁ - expOf p₂) ^ powVal w) :=
+  scaling_atoms p₁ p₂ u w h₁ h₂ hu hw
+
+/-- conversions compose: a→b followed by b→c is a→c -/
+theorem scaling_compose (p₁ p₂ p₃ u w : Str) (h₁ : p₁ ∈ optPrefixes) (h₂ : p₂ ∈ optPrefixes)
+    (h₃ : p₃ ∈ optPrefixes) (hu : u ∈ units) (hw : w ∈ powerTexts) :
+    ∃ x y z : Rat, scaling (p₁ ++ u ++ w) (p₂ ++ u ++ w) = .ok x ∧
+      scaling (p₂ ++ u ++ w) (p₃ ++ u ++ w) = .ok y ∧
+      scaling (p₁ ++ u ++ w) (p₃ ++ u ++ w) = .ok z ∧ x * y = z :=
+  ⟨_, _, _, (scaling_atoms p₁ p₂ u w h₁ h₂ hu hw).2, (scaling_atoms p₂ p₃ u w h₂ h₃ hu hw).2,
+    (scaling_atoms p₁ p₃ u w h₁ h₃ hu hw).2, ratio_compose _ _ _ _⟩
+
+/-- conversions invert: a→b times b→a is 1 -/
+theorem scaling_invert (p₁ p₂ u w : Str) (h₁ : p₁ ∈ optPrefixes) (h₂ : p₂ ∈ optPrefixes)
+    (hu : u ∈ units) (hw : w ∈ powerTexts) :
+    ∃ x y : Rat, scaling (p₁ ++ u ++ w) (p₂ ++ u ++ w) = .ok x ∧
+      scaling (p₂ ++ u ++ w) (p₁ ++ u ++ w) = .ok y ∧ x * y = 1 :=
+  ⟨_, _, (scaling_atoms p₁ p₂ u w h₁ h₂ hu hw).2, (scaling_atoms p₂ p₁ u w h₂ h₁ hu hw).2,
+    ratio_invert _ _ _⟩
+
+/-- a different base unit or a different power text: not scalable, conversion refused -/
+theorem not_scalable (p₁ p₂ u₁ u₂ w₁ w₂ : Str) (h₁ : p₁ ∈ optPrefixes) (h₂ : p₂ ∈ optPrefixes)
+    (hu₁ : u₁ ∈ units) (hu₂ : u₂ ∈ units) (hw₁ : w₁ ∈ powerTexts) (hw₂ : w₂ ∈ powerTexts)
+    (hne : u₁ ≠ u₂ ∨ w₁.drop 1 ≠ w₂.drop 1) :
+    scalable (p₁ ++ u₁ ++ w₁) (p₂ ++ u₂ ++ w₂) = false ∧
+    scaling (p₁ ++ u₁ ++ w₁) (p₂ ++ u₂ ++ w₂) = .error .invalidUnit :=
+  not_scalable_atoms p₁ p₂ u₁ u₂ w₁ w₂ h₁ h₂ hu₁ hu₂ hw₁ hw₂ hne
+
+/-- a product or quotient of two table atoms, followed by anything (so: any `*`/`/`-joined
+sequence of two or more atoms), is recognised as compound and as SI -/
+theorem compound (p₁ u₁ w₁ p₂ u₂ w₂ : Str) (sep : Char) (tail : Str)
+    (h₁ : p₁ ∈ optPrefixes) (hu₁ : u₁ ∈ units) (hw₁ : w₁ ∈ powerTexts)
+    (h₂ : p₂ ∈ optPrefixes) (hu₂ : u₂ ∈ units) (hw₂ : w₂ ∈ powerTexts)
+    (hsep : sep = '*' ∨ sep = '/') :
+    isCompound ((p₁ ++ u₁ ++ w₁) ++ sep :: (p₂ ++ u₂ ++ w₂) ++ tail) = true ∧
+    isSi ((p₁ ++ u₁ ++ w₁) ++ sep :: (p₂ ++ u₂ ++ w₂) ++ tail) = true :=
+  compound_atoms p₁ u₁ w₁ p₂ u₂ w₂ sep tail h₁ hu₁ hw₁ h₂ hu₂ hw₂ hsep
+
+/-- unit clean-up is idempotent, for every string -/
+theorem sanitizer_idempotent (s : Str) : sanitizer (sanitizer s) = sanitizer s :=
+  sanitizer_idem s
+
+/-- and it does what it says: no blank, no micro sign, no `mu` is left -/
+theorem sanitizer_clean (s : Str) :
+    ' ' ∉ sanitizer s ∧ 'µ' ∉ sanitizer s ∧ 'μ' ∉ sanitizer s ∧
+    containsSub ['m', 'u'] (sanitizer s) = false :=
+  sanitizer_is_clean s
+
 /-! Non-vacuity: the hypotheses are met by concrete table entries. -/
-example : ("m".toList ∈ optPrefixes) ∧ ("mol".toList ∈ units) ∧ ("^-2".toList ∈ powerTexts) := by
+example : (['m'] ∈ optPrefixes) ∧ (['m', 'o', 'l'] ∈ units) ∧ (['^', '-', '2'] ∈ powerTexts) := by
   decide
 example : scaling "mV".toList "uV".toList = .ok 1000 := by decide +kernel
 example : split "mmol^-2".toList = ("m".toList, "mol".toList, "-2".toList) := by decide +kernel
+example : sanitizer "m mµ V".toList = "uV".toList := by decide +kernel
 
 end Nix.C09
